@@ -1,5 +1,6 @@
 import ComposeVerif.Lemmas.C01Stages
 import ComposeVerif.Lemmas.C01Dep
+import ComposeVerif.Lemmas.C01DepSound
 import ComposeVerif.Lemmas.C01Inc
 import ComposeVerif.Lemmas.C01Ext
 import ComposeVerif.Lemmas.C01Reset
@@ -305,6 +306,33 @@ theorem dependsOn_cycle_err {α : Type} [DecidableEq α] (g : Dep.G α) (hg : De
 
 example : Dep.checkCycle ([("a", ["b"]), ("b", ["c"]), ("c", ["b"])] : Dep.G String) 4 = .cycle ["b", "c", "b"] := by decide
 example : Dep.checkCycle ([("a", ["b", "c"]), ("b", ["c"]), ("c", [])] : Dep.G String) 4 = .ok := by decide
+
+/-- `dependsOn_reported_cycle_sound` (round 5): the list that `checkCycle` puts into `dependency cycle detected: …` is a
+walk along edges of the graph, of at least one edge, from a vertex back to itself — on EVERY graph (closed or not),
+every fuel: the error is never a false alarm and names a real cycle -/
+theorem dependsOn_reported_cycle_sound {α : Type} [DecidableEq α] (g : Dep.G α) (fuel : Nat) (p : List α)
+    (h : Dep.checkCycle g fuel = .cycle p) : Dep.IsCycle g p :=
+  Dep.checkFrom_sound g fuel _ p h
+
+example : Dep.IsCycle ([("a", ["b"]), ("b", ["c"]), ("c", ["b"])] : Dep.G String) ["b", "c", "b"] :=
+  dependsOn_reported_cycle_sound _ 4 _ (by decide)
+
+/-- `dependsOn_cycle_iff`: on a closed graph a cycle is reported exactly when some service can follow `depends_on`
+forever (`dependsOn_cycle_err` is the ← half) -/
+theorem dependsOn_cycle_iff {α : Type} [DecidableEq α] (g : Dep.G α) (hg : Dep.Closed g) (fuel : Nat) (hf : g.length < fuel) :
+    (∃ p, Dep.checkCycle g fuel = .cycle p) ↔ ∃ v, v ∈ Dep.verts g ∧ Dep.CanLoop g v :=
+  ⟨fun ⟨p, h⟩ => (dependsOn_reported_cycle_sound g fuel p h).canLoop_vertex hg,
+   fun ⟨v, hv, hc⟩ => dependsOn_cycle_err g hg v hv hc fuel hf⟩
+
+/-- `dependsOn_ok_iff_acyclic`: … and the check passes exactly on the graphs in which no service can -/
+theorem dependsOn_ok_iff_acyclic {α : Type} [DecidableEq α] (g : Dep.G α) (hg : Dep.Closed g) (fuel : Nat) (hf : g.length < fuel) :
+    Dep.checkCycle g fuel = .ok ↔ ¬ ∃ v, v ∈ Dep.verts g ∧ Dep.CanLoop g v := by
+  rw [← dependsOn_cycle_iff g hg fuel hf]
+  have ht := checkCycle_terminates g hg fuel hf
+  cases hr : Dep.checkCycle g fuel with
+  | ok => simp
+  | cycle p => simp
+  | outOfFuel => exact absurd hr ht
 
 /-! ## the fuel is a proof device only: above the bound the answer does not depend on it -/
 
